@@ -6,10 +6,11 @@
    the semantics and the io structure of the closed form, and that the feedback choice of the code is always legal
    (back edges of ANY node order that lie on a cycle).  `C18_model_is_closed_form` links the API-level model to the closed form
    (graph equality whenever the model returns), so `C18_acyclic_unroll_partial` is about the model itself.
-   The closed form is lint-clean (`C18_result_lint_clean`).
-   Not proved, decided per case by Run_C18.agree/holds: `C18_total_full` (the model returns inside the guards). *)
+   The closed form is lint-clean (`C18_result_lint_clean`) and inside the guards the model returns (`C18_total`), so
+   `C18_acyclic_unroll` is the property about the API-level model with nothing left to the per-case oracle.
+   What stays tied by correspondence only: model <-> Python code, and the greedy ordering heuristic (any order is correct). *)
 From stdpp Require Import strings gmap sets fin_sets.
-From CG Require Import Base.Oracle Model.AcyclicUnroll Model.TopoEval Proofs.AcyclicUnrollProofs Proofs.AcyclicUnrollLink.
+From CG Require Import Base.Oracle Model.AcyclicUnroll Model.TopoEval Proofs.AcyclicUnrollProofs Proofs.AcyclicUnrollLink Proofs.AcyclicbComplete Proofs.UnrollTotal Proofs.AcyclicUnrollTotal.
 Open Scope string_scope.
 
 (* --- the feedback choice: for every node order, removing the back edges that lie on a cycle leaves an acyclic graph
@@ -95,12 +96,34 @@ Theorem C18_acyclic_unroll_partial : ∀ C F A,
 Proof. exact acyclic_unroll_spec. Qed.
 Print Assumptions C18_acyclic_unroll_partial.
 
-(* --- what is NOT proved (visible, decided per case by Run_C18): inside the guards the model does not raise
-       (every API check passes and the executable acyclicity test accepts; lint does accept: C18_result_lint_clean). --- *)
-Definition C18_total_full : Prop := ∀ C F,
-  lint_clean C → bb_free C → closed (c_g C) → startpoints (c_g C) = inputs (c_g C) → (∀ n, n ∉ fanin (c_g C) n) →
+(* --- TOTALITY: inside the guards every call of the construction API made by the model is accepted, the result passes lint
+       and the executable acyclicity test, so the model returns.  (The test of Base/Oracle.v is complete, not only sound.) --- *)
+Theorem C18_acyclicity_test_complete : ∀ c, closed c → acyclic c → acyclicb c = true.
+Proof. exact acyclicb_complete. Qed.
+Print Assumptions C18_acyclicity_test_complete.
+Theorem C18_total : ∀ C F,
+  lint_clean C → c_bbs C = ∅ → closed (c_g C) → plain (c_g C) → valid_names (c_g C) → (∀ n, n ∉ fanin (c_g C) n) →
   names_ok (c_g C) F → NoDup F → (∀ f, f ∈ F → f ∈ dom (c_g C)) → cut_acyclic (c_g C) F →
   ∃ A, acyclic_unroll C F = Ok A.
+Proof. exact acyclic_unroll_total. Qed.
+Print Assumptions C18_total.
+
+(* --- C18 about the model, unconditionally inside the guards (DESIGN.md C18_acyclic_unroll): for every lint-clean blackbox-free
+       circuit without self loops and every feedback set with an acyclic cut (in particular the code's own choice for ANY node
+       order, C18_feedback_choice_ok) the model returns an acyclic lint-clean circuit with the same outputs, inputs = inputs +
+       one aux per feedback node, which shows every stable state on its outputs.
+       Guards: `plain` (no bb_input / bb_output typed node), `valid_names` (no empty name, none starting with a digit; Circuit.add
+       rejects those), `free_are_inputs` (no x constant), `names_ok` (generated names do not collide). --- *)
+Theorem C18_acyclic_unroll : ∀ C F,
+  lint_clean C → c_bbs C = ∅ → closed (c_g C) → plain (c_g C) → valid_names (c_g C) → (∀ n, n ∉ fanin (c_g C) n) →
+  free_are_inputs (c_g C) → names_ok (c_g C) F → NoDup F → (∀ f, f ∈ F → f ∈ dom (c_g C)) → cut_acyclic (c_g C) F →
+  ∃ A, acyclic_unroll C F = Ok A ∧
+    c_bbs A = ∅ ∧ lint_clean A ∧ acyclic (c_g A) ∧ outputs (c_g A) = outputs (c_g C) ∧
+    inputs (c_g A) = inputs (c_g C) ∪ list_to_set ((λ f, "c0_aux_in_" ++ f) <$> F) ∧
+    ∀ v w, consistent (c_g C) v → consistent (c_g A) w → agrees (inputs (c_g C)) w v →
+           (∀ f, f ∈ F → w ("c0_aux_in_" ++ f) = v f) → agrees (outputs (c_g C)) w v.
+Proof. exact acyclic_unroll_correct. Qed.
+Print Assumptions C18_acyclic_unroll.
 
 (* the closed form (hence, by the link, whatever the model returns) passes lint *)
 Theorem C18_result_lint_clean : ∀ C F nm,
@@ -123,6 +146,16 @@ Proof.
   split; [apply names_okb_spec; vm_compute; reflexivity|].
   split; [apply acyclicb_sound; vm_compute; reflexivity|].
   apply consistentb_spec; vm_compute; reflexivity.
+Qed.
+Example C18_ex_guards : lint_clean ex_C ∧ plain ex_c ∧ valid_names ex_c ∧ (∀ n, n ∉ fanin ex_c n).
+Proof.
+  split; [vm_compute; reflexivity|]. split; [|split].
+  - change (map_Forall (λ (_ : string) i, n_ty i ≠ BbIn ∧ n_ty i ≠ BbOut ∧ n_ty i ≠ Unsup ∧ n_ty i ≠ NoTy) ex_c).
+    apply (bool_decide_unpack _). vm_compute. reflexivity.
+  - change (set_Forall (λ n : string, n ≠ "" ∧ starts_digit n = false) (dom ex_c)).
+    apply (bool_decide_unpack _). vm_compute. reflexivity.
+  - assert (map_Forall (λ (n : string) i, n ∉ n_fi i) ex_c) as H by (apply (bool_decide_unpack _); vm_compute; reflexivity).
+    intros n (i & Hi & Hf)%elem_of_fanin. by apply (H n i Hi).
 Qed.
 Example C18_ex_model_is_closed_form :
   acyclic_unroll ex_C ["h"] = Ok {| c_name := "acyc_t"; c_g := unrolled ex_c ["h"]; c_bbs := ∅ |} ∧ size (unrolled ex_c ["h"]) = 13.
